@@ -150,7 +150,7 @@ def plan(tier, seed):
                       'origins straddling cell faces; whole real structures; each in both atom orders; two atoms of every element pair '
                       'on identical coordinates; full pipeline runs (default, -k) of real files and of protein/hetero pairs docked at '
                       'covalent distance (CYS-thiol, carboxylate-ion, His-ion, Lys-ligand; two ions on one site), heavy-atom bonds '
-                      'of every conformation against the all-pairs rule. non-trivial = '
+                      'of every conformation against the all-pairs rule. two atoms of every element pair at exactly 1.5 / 2.0 / 2.5 A along each axis on binary-exact coordinates; non-trivial = '
                       'distinct placements whose atoms fall into different cells or lie within 0.05 A of a threshold'),
                 bounds=dict(tier=tier, lattice_step=0.3 if tier == 'quick' else 0.2, max_atoms_synthetic=3),
                 samples=[dict(spec=[['C', -0.001, 1.0, 1.0], ['C', 0.001, 2.9, 1.0]], note='neighbour cell across x=0')])
